@@ -7,6 +7,7 @@ pub mod refparse;
 pub mod respread;
 pub mod src;
 pub mod stream;
+pub mod world;
 
 /// Receive window / line limit of the build under test.
 pub fn buf_size() -> usize {
